@@ -277,6 +277,39 @@ pub proof fn lemma_frame_roundtrip(w: Noise, rn: Noise, p: Seq<u8>, rest: Seq<u8
     assert(pin.subrange(2, 2 + n) =~= seal(w, p));
     assert(pin.subrange(2 + n, pin.len() as int) =~= rest);
 }
+
+// ---------------- C13, a whole stream of frames: induction over the one-frame lemma ----------------
+// the bytes the writer puts on the wire for payloads ps[i..] (frame i sealed in writer state ws[i])
+pub open spec fn wire_from(ws: Seq<Noise>, ps: Seq<Seq<u8>>, i: int) -> Seq<u8>
+    decreases ps.len() - i
+{
+    if i < 0 || i >= ps.len() { Seq::empty() } else { frame_of(ws[i], ps[i]) + wire_from(ws, ps, i + 1) }
+}
+// ANY k successive reader steps (each satisfying the postcondition of poll_read_payload: exactly one frame leaves the front of the
+// undecoded input) on the wire image of ps hand out ps[0], .., ps[k-1] -- in order, nothing lost, duplicated or altered -- and leave exactly
+// the wire image of the remaining payloads (followed by whatever came after). A3: reader state i is paired with writer state i.
+pub proof fn lemma_stream_roundtrip(ws: Seq<Noise>, rs: Seq<Noise>, ps: Seq<Seq<u8>>, rest: Seq<u8>,
+                                    pins: Seq<Seq<u8>>, plains: Seq<Seq<u8>>, ns: Seq<int>, k: int)
+    requires
+        ws.len() == ps.len(), rs.len() == ps.len(), 0 <= k <= ps.len(), pins.len() >= k + 1, plains.len() >= k, ns.len() >= k,
+        forall|i: int| 0 <= i < ps.len() ==> paired(#[trigger] ws[i], rs[i]) && ps[i].len() + AUTHDATA_LEN <= u16::MAX,
+        pins[0] == wire_from(ws, ps, 0) + rest,
+        forall|i: int| 0 <= i < k ==> frame_consumed(#[trigger] pins[i], pins[i + 1], rs[i], plains[i], ns[i]),
+    ensures
+        forall|i: int| 0 <= i < k ==> #[trigger] plains[i] == ps[i],
+        pins[k] == wire_from(ws, ps, k) + rest,
+    decreases k
+{
+    if k > 0 {
+        lemma_stream_roundtrip(ws, rs, ps, rest, pins, plains, ns, k - 1);
+        let tail = wire_from(ws, ps, k) + rest;
+        assert(wire_from(ws, ps, k - 1) == frame_of(ws[k - 1], ps[k - 1]) + wire_from(ws, ps, k));
+        assert(pins[k - 1] =~= frame_of(ws[k - 1], ps[k - 1]) + tail);
+        assert(paired(ws[k - 1], rs[k - 1]));
+        assert(frame_consumed(pins[k - 1], pins[k], rs[k - 1], plains[k - 1], ns[k - 1]));
+        lemma_frame_roundtrip(ws[k - 1], rs[k - 1], ps[k - 1], tail, pins[k], plains[k - 1], ns[k - 1]);
+    }
+}
 """
 
 HS = [("this: &mut StreamProject<'_, S>", "this: &mut StreamProject<'_>"), ("cx: &mut Context<'_>", "cx: &mut Cx")]
